@@ -8,7 +8,9 @@ from .vtypes import parse_type
 
 class Contract:
     def __init__(self, qual, types=None, returns=None, requires=(), ensures=(), modifies=(), loops=None,
-                 inline=False, props=(), note="", pure=False, bounded=None, may_raise=False, fixed=None, result_is=None, bounded_requires=()):
+                 inline=False, props=(), note="", pure=False, bounded=None, may_raise=False, fixed=None, result_is=None, bounded_requires=(),
+                 unreachable_loops=()):
+        self.unreachable_loops = list(unreachable_loops)      # loops excluded by the precondition (stated in evidence); no reachability probe
         self.bounded_requires = list(bounded_requires)
         self.result_is = result_is
         self.fixed = dict(fixed or {})
